@@ -1,7 +1,21 @@
 /- Stateful driver for the C01 / C20 correspondence streams: the session machine over integer tables. -/
 import Csvq.Model.Session
+import Csvq.Model.CreateTable
 namespace Csvq.Drive
 open Csvq.Session
+
+/-- a hex-encoded ASCII text as characters -/
+def unhexChars (s : String) : Option (List Char) :=
+  let hv : Char → Option Nat := fun c =>
+    if '0' ≤ c ∧ c ≤ '9' then some (c.toNat - 48) else if 'a' ≤ c ∧ c ≤ 'f' then some (c.toNat - 87) else none
+  let rec go : List Char → List Char → Option (List Char)
+    | [], acc => some acc.reverse
+    | a :: b :: rest, acc => do
+      let x ← hv a
+      let y ← hv b
+      go rest (Char.ofNat (x * 16 + y) :: acc)
+    | _, _ => none
+  go s.toList []
 
 /-- a table as the driver sees it: the file attribute that decides how it is written (line break: 0 = LF,
     1 = CRLF, 2 = CR) and the rows.  The session model is polymorphic in the
@@ -133,6 +147,15 @@ def c01stepCore (s : State Tbl) (cmd : String) (args : List String) : State Tbl 
     | none => bad
   | "dtemp", [t] => match t.toNat? with | some t => run (.declareTemp t (0, [])) | none => bad
   | "dmltemp", [t, k, a] => match t.toNat?, a.toInt? with | some t, some a => run (.dmlTemp t (dmlFn k a)) | _, _ => bad
+  -- the format CREATE TABLE gives a new file of that name / the format a load of that file assumes (Model/CreateTable)
+  | "createfmt", [h] =>
+    match unhexChars h with
+    | some cs => (s, (CreateTable.createFormat cs).name)
+    | none => bad
+  | "loadfmt", [h, d] =>
+    match unhexChars h, CreateTable.Format.ofName d with
+    | some cs, some dflt => (s, (CreateTable.loadFormat cs dflt).name)
+    | _, _ => bad
   | "commit", [] => run .commit
   | "rollback", [] => run .rollback
   | "other", [p, c] => match p.toNat?, parseTbl c with | some p, some c => run (.other p c) | _, _ => bad
